@@ -2,7 +2,8 @@
 # tools/seedtest.sh <prop> <dir with patch.diff demo.py> [repo dir]: confirm a seeded change (tests unchanged, demo flips)
 # and run the check against it in the scratch worktree /work/mut/repo (never in /repo)
 P=$1; D=$2; R=${3:-/work/mut/repo}
-git -C $R checkout -q --detach $(git -C /repo rev-parse HEAD) 2>/dev/null; git -C $R checkout -q -- .
+[ "$R" = /work/mut/repo ] && git -C $R checkout -q --detach $(git -C /repo rev-parse HEAD) 2>/dev/null   # a work-package worktree keeps its own branch (it may hold fix: commits)
+git -C $R checkout -q -- .
 export MOLLI_HOME=$(mktemp -d)
 echo "demo unchanged: $(cd $D && PYTHONPATH=$R timeout 300 /venv/bin/python demo.py 2>&1 | tail -1 | cut -c1-150) rc=$?"
 git -C $R apply $D/patch.diff || { echo "PATCH DOES NOT APPLY"; exit 3; }
